@@ -8,25 +8,28 @@ EXTENDS Naturals, Sequences, FiniteSets, TLC, Json
 
 CONSTANTS Lang, MaxLen, Mode      \* Lang: "path" | "pointer" | "relptr"; Mode: "soup" | "mutants"
 
+\* TLC keeps strings as bytes when it spills states to disk, so lexemes outside ASCII are given by name
+\* ("EACUTE", "SUPER2") and spelled out by the recorder
 VARIABLES s, done
 vars == <<s, done>>
 
 L(str) == str
 PathLex == << "$", "@", ".", "..", "[", "]", "(", ")", "?", "*", ",", ":", "'a'", "\"b\"", "'", "\"", "a", "1", "-1", "01", "1e2", "1.5", "1e-1",
               "9007199254740993", "-", "+", "==", "!=", "<", "<>", "&&", "||", "!", " in ", " contains ", "=~", "/a/", "/(/", "/a", "/a/i", "true", "null",
-              "length(", "count(", "match(", "value(", "nosuch(", "#", "_", "~", "^", " | ", " & ", "undefined", " ", "\\", "'\\u00e9'", "'\\ud800'", "é", "0", "and", "not " >>
-PtrLex == << "/", "~", "0", "1", "a", "-", "#", "\\u0041", "\\", "\\ud800", " ", "é", "%41", "~0", "~1", "~2", "-1", "01", "9007199254740993", "\\x" >>
-RelLex == << "0", "1", "2", "10", "+", "-", "#", "/", "a", "~", "01", " ", "\\", "+0", "é" >>
+              "length(", "count(", "match(", "value(", "nosuch(", "#", "_", "~", "^", " | ", " & ", "undefined", " ", "\\", "'\\u00e9'", "'\\ud800'", "EACUTE", "0", "and", "not ",
+              "1e400", "1.0e16", "1.5e1", "/a{99999999999999999999}/", "'a{99999999999999999999}'", "aaaaaaaaaaaaaaaaaaaaaaaaaaaaaaaaaaaaaaaa" >>
+PtrLex == << "/", "~", "0", "1", "a", "-", "#", "\\u0041", "\\", "\\ud800", " ", "EACUTE", "%41", "~0", "~1", "~2", "-1", "01", "9007199254740993", "\\x", "SUPER2" >>
+RelLex == << "0", "1", "2", "10", "+", "-", "#", "/", "a", "~", "01", " ", "\\", "+0", "EACUTE" >>
 Lex == CASE Lang = "path" -> PathLex [] Lang = "pointer" -> PtrLex [] Lang = "relptr" -> RelLex [] OTHER -> <<>>
 
 \* patch documents: operation records whose members are given as codes the recorder decodes
 \*   "s:<text>" a string, "n:1" the number 1, "l:" an empty array, "null", "absent" (member omitted)
 OpV == {"s:add", "s:remove", "s:replace", "s:move", "s:copy", "s:test", "s:addne", "s:addap", "s:frob", "n:1", "null", "absent"}
-PathV == {"s:/a", "s:", "s:/a/-", "s:/a/0", "s:a", "n:1", "absent", "s:/a/~2", "s:/b/c", "null", "s:/a/9", "s:/"}
+PathV == {"s:/a", "s:", "s:/a/-", "s:/a/0", "s:a", "n:1", "absent", "s:/a/~2", "s:/b/c", "null", "s:/a/9", "s:/", "s:/a/#0", "s:/a/#"}
 FromV == {"absent", "s:/a", "s:/z", "n:1", "s:x", "s:/a/0"}
-ValV == {"absent", "n:1", "l:"}
+ValV == {"absent", "n:1", "l:", "s:{x"}
 PatchOps == [op : OpV, path : PathV, from : FromV, value : ValV]
-PatchOpsSmall == [op : {"s:add", "s:move", "s:test", "s:remove", "absent"}, path : {"s:/a/0", "s:/a/-", "s:", "s:/z/z"}, from : {"absent", "s:/a/0", "s:/a"}, value : {"n:1", "l:"}]
+PatchOpsSmall == [op : {"s:add", "s:move", "s:test", "s:remove", "s:replace", "absent"}, path : {"s:/a/0", "s:/a/-", "s:", "s:/z/z"}, from : {"absent", "s:/a/0", "s:/a"}, value : {"n:1", "l:", "s:{x"}]
 N == Len(Lex)
 
 \* valid sentences (as index sequences into Lex are awkward to write, they are given as lexeme sequences)
@@ -36,8 +39,12 @@ Bases ==
                           <<"$", "[", "?", "@", ".", "a", "=~", "/a/i", "&&", "!", "@", ".", "a", "]">>, <<"$", ".", "a", " | ", "$", "..", "*">>,
                           <<"^", "[", "?", "#", " in ", "[", "1", ",", "'a'", "]", "||", "_", ".", "a", "]">>,
                           <<"$", "[", "?", "match(", "@", ",", "'a'", ")", "]">>, <<"$", "[", "?", "count(", "@", ".", "*", ")", "==", "1", "]">>,
-                          <<"$", "[", "?", "@", "[", "?", "@", ".", "a", "]", "]">>, <<"$", ".", "a", ".", "~">> }
-    [] Lang = "pointer" -> { <<"/", "a", "/", "0">>, <<"/", "~0", "/", "~1">>, <<>>, <<"/", "-">>, <<"/", "é", "/", "\\u0041">> }
+                          <<"$", "[", "?", "@", "[", "?", "@", ".", "a", "]", "]">>, <<"$", ".", "a", ".", "~">>,
+                          <<"$", "..", "[", "?", "@", ".", "a", " in ", "@", ".", "b", "]">>, <<"$", "..", "[", "?", "@", ".", "b", " contains ", "@", ".", "a", "]">>,
+                          <<"$", "[", "?", "match(", "@", ".", "a", ",", "'a'", ")", "]">>,
+                          <<"$", "[", "?", "(", "@", ".", "a", "==", "1", ")", "==", "true", "]">>, <<"$", "[", "?", "@", ".", "a", "<", "(", "1.5e1", "<", "1.0e16", ")", "]">>,
+                          <<"$", "[", "?", "!", "(", "@", ".", "a", "||", "@", ".", "b", ")", "&&", "@", ".", "a", "!=", "1.0e16", "]">> }
+    [] Lang = "pointer" -> { <<"/", "a", "/", "0">>, <<"/", "~0", "/", "~1">>, <<>>, <<"/", "-">>, <<"/", "EACUTE", "/", "\\u0041">> }
     [] Lang = "relptr" -> { <<"0">>, <<"1", "/", "a">>, <<"0", "+", "1">>, <<"2", "#">>, <<"0", "-", "10", "/", "a">> }
     [] OTHER -> {}
 LexSet == {Lex[i] : i \in 1..N}
